@@ -540,6 +540,15 @@ func (b *Branch) Trim(height int) error {
 	if offset >= len(b.headers) {
 		return errors.New("Height Above Tip") // above tip
 	}
+	if offset <= 0 {
+		// Trimming at or below the lowest header still in memory would leave the branch empty.
+		return errors.New("Height Pruned")
+	}
+
+	// Remove the trimmed headers from the height map so they are no longer found in this branch.
+	for _, data := range b.headers[offset:] {
+		delete(b.heightsMap, data.Hash)
+	}
 
 	b.headers = b.headers[:offset]
 	return nil
